@@ -124,6 +124,8 @@ def _chunks_of(dl, K, r, i):
         # path where no remainder chunk is appended: must be conditioned on len(list_of_arr) > 1 being false - always 2 parts with one cut
         if (mk_cmp("<", ("c", 1), lensym(sp)), False) in lits(r.guards(i)):
             return "skip", "np.split with one cut point always yields two parts: this path is infeasible"
+        if any(x[0] == "sub" and x[1] == sp and x[2] == ("c", 1) for g, _ in lits(r.guards(i)) for x in walk(g)):
+            return None, "remainder chunk appended under a condition on the remainder part itself (not decided)"
         return False, "remainder chunk (len %% %d bytes) is not appended on this path" % K
     tail = parts[1]
     if tail[0] != "list" or len(tail[1]) != 1:
